@@ -343,6 +343,16 @@ fn main() {
     let duplex = envn("MAYV_DUPLEX", 0) == 1;
     let close_how = envs("MAYV_CLOSE", "mix");
     let nmsgs = envn("MAYV_MSGS", 12) as usize;
+    // MAYV_NAG=n (plain stream connections): a helper coroutine wakes whoever is suspended on the reader's socket n
+    // times (WaitIoWaker::wakeup: a readiness report without data, like the "writable" edge of the same descriptor),
+    // MAYV_NAGGAP ns apart: the reader goes through the retry loop of `done()` with a read that finds nothing.
+    // MAYV_WRLATE / MAYV_RDLATE=ns: the writer / reader starts late (the other side blocks first / the buffers fill up).
+    // MAYV_MINSIZE=n: no stream is shorter than n bytes.
+    let nag = envn("MAYV_NAG", 0);
+    let naggap = envn("MAYV_NAGGAP", 200_000);
+    let wrlate = envn("MAYV_WRLATE", 0);
+    let rdlate = envn("MAYV_RDLATE", 0);
+    let minsize = envn("MAYV_MINSIZE", 0);
     // MAYV_CHUNKED=s (stream sockets): every write offers exactly s bytes and every read asks for exactly s bytes, so
     // that "the socket buffer is full" is a function of the number of unread writes (measured on a probe connection
     // and announced to the trace acceptor): the variant in which the acceptor follows blocked WRITERS
@@ -376,7 +386,7 @@ fn main() {
                     1 => 1 + ctx.rand() % 16,
                     _ => ctx.rand() % (maxsize + 1),
                 };
-                let total = if chunked != 0 { total / chunked * chunked } else { total };
+                let total = if chunked != 0 { total / chunked * chunked } else { total.max(minsize) };
                 let sizes: Vec<usize> = if dgram {
                     (0..nmsgs).map(|_| if ctx.rand() % 6 == 0 { 0 } else { (ctx.rand() % (maxchunk + 1)) as usize }).collect()
                 } else {
@@ -430,7 +440,20 @@ fn main() {
                                 })));
                             } else {
                                 let (d1, d2) = (ab.clone(), ab.clone());
+                                if nag > 0 {
+                                    use may::io::WaitIo;
+                                    let wk = b.waker();
+                                    jobs.push((format!("c{cn}.nag"), true, Box::new(move || {
+                                        for _ in 0..nag {
+                                            may::coroutine::sleep(std::time::Duration::from_nanos(naggap));
+                                            wk.wakeup();
+                                        }
+                                    })));
+                                }
                                 jobs.push((format!("c{cn}.w"), w_co, Box::new(move || {
+                                    if wrlate > 0 {
+                                        may::coroutine::sleep(std::time::Duration::from_nanos(wrlate));
+                                    }
                                     write_stream(&mut a, &d1, &mut Rng(rs1), maxchunk, wrall, "writer", tfa);
                                     d1.closed.store(true, Ordering::SeqCst);
                                     if shut {
@@ -440,6 +463,9 @@ fn main() {
                                     drop(a);
                                 })));
                                 jobs.push((format!("c{cn}.r"), r_co, Box::new(move || {
+                                    if rdlate > 0 {
+                                        may::coroutine::sleep(std::time::Duration::from_nanos(rdlate));
+                                    }
                                     read_stream(&mut b, &d2, &mut Rng(rs2), maxbuf, "reader", tfb);
                                 })));
                             }
